@@ -55,6 +55,17 @@ PROPS = {
             rc("rc", ["props/C19_rc.cpp", "shims/rings.c"], 300, 6000, qs=4, ts=16),
         ],
     ),
+    "C16": dict(
+        level="exploration",
+        exhaustive_possible=True,
+        rule="cases are (starting value, octet buffer[, split position]) triples compared with a bit-serial CRC-16/ARC reference; non-trivial = state and octet both "
+             "non-zero (update step), a split strictly inside the buffer, or a word buffer; distinct by value",
+        assumptions=COMMON_ASSUME,
+        targets=[
+            enum("enum", ["props/C16_enum.cpp"], qs=8, ts=16),
+            enum("fast", ["props/C16_enum.cpp"], qs=0, ts=16, lib="fast", cxxflags=["-DVP_FAST", "-O2"]),
+        ],
+    ),
 }
 
 NOTE_COMMON = ("trusted: clang/ASan/UBSan, the harness and its reference model; the search is bounded (see evidence: tier bounds and counts); "
@@ -74,6 +85,14 @@ MANIFEST_TEXT = {
         level_text="All reachable (head, tail, override flag, slot contents, model queue) pairs for capacities 1..4 (thorough 1..6) over a two-value alphabet "
                    "are explored to closure for three element types, checking size/empty/full, get and both iterators after every transition; random histories "
                    "reach capacities up to 64. The closure is exhaustive for the stated alphabet and capacities only.",
+        level_note=NOTE_COMMON,
+    ),
+    "C16": dict(
+        engine="enum",
+        technique="exhaustive enumeration of the CRC update step (2^24 pairs; thorough: all 1- and 2-octet buffers from every state) + random buffers at every split, against a bit-serial reference",
+        level_text="The update step is checked for every (state, octet) pair, which together with the concatenation law (checked at every split of random buffers) "
+                   "determines the function on all inputs; the word variant is compared with the octet variant on the words' memory image. The step space is covered "
+                   "exhaustively, buffers by sampling.",
         level_note=NOTE_COMMON,
     ),
 }
